@@ -25,6 +25,14 @@ Definition gpol : nat -> nat -> nat -> nat := fun _ oldcap needed => needed.
 Definition registered (b : byte) : bool := (1 <=? b2n b)%N && (b2n b <=? 3)%N.
 (* socket.MessageSizeLimit() default: 1 GiB *)
 Definition size_limit : N := 1073741824.
+(* OnPack of the test filters (harness/hlib/filters.go): 1 = xor 90, 2 = reverse, 3 = one-byte length prefix *)
+Definition filter_pack (id : byte) (d : bytes) : option bytes :=
+  match b2n id with
+  | 1%N => Some (map (fun b => n2b (N.lxor (b2n b) 90)) d)
+  | 2%N => Some (rev d)
+  | 3%N => Some (n2b (blen d) :: d)
+  | _ => None
+  end.
 
 Fixpoint dec_list {A} (f : val -> option A) (l : list val) : option (list A) :=
   match l with
@@ -96,6 +104,7 @@ Definition dec_mop (v : val) : option mop :=
       else None
   | VL [s] =>
       if sym_eqb s "statusinit" then Some MStatusInit else if sym_eqb s "reset" then Some MReset
+      else if sym_eqb s "pack" then Some MPack
       else if sym_eqb s "get" then Some MGetters else None
   | _ => None
   end.
@@ -144,8 +153,8 @@ Inductive lop := LOp (c : cop) | LView | LReply.
 
 Definition lstep (c : hctx) (o : lop) : res (hctx * list val) :=
   match o with
-  | LOp co => r <- ctx_step gpol registered size_limit c co ;; Ok (fst r, [])
-  | LView => ctx_step gpol registered size_limit c CHandlerView
+  | LOp co => r <- ctx_step gpol registered size_limit filter_pack c co ;; Ok (fst r, [])
+  | LView => ctx_step gpol registered size_limit filter_pack c CHandlerView
   | LReply =>
       let m := c_output c in
       Ok (c, [VL [VL (map vkv (abs_args (m_meta m))); VN (b2n (m_body_codec m)); VB (vis (m_xfer_pipe m))]])
@@ -202,8 +211,8 @@ Definition run (inp : val) : option val :=
       else if sym_eqb kind "msg" then
         match dec_list dec_mop d, dec_list dec_mop l with
         | Some dops, Some lops =>
-            match Pools.run (msg_step gpol registered size_limit) msg_fresh dops with
-            | Ok (dirty, _) => obs_of (Pools.run (msg_step gpol registered size_limit) (msg_reset dirty) lops)
+            match Pools.run (msg_step gpol registered size_limit filter_pack) msg_fresh dops with
+            | Ok (dirty, _) => obs_of (Pools.run (msg_step gpol registered size_limit filter_pack) (msg_reset dirty) lops)
             | _ => None
             end
         | _, _ => None
